@@ -273,6 +273,15 @@ def run_batch(binp, prop, tier, base, total, workers, timeout, gomaxprocs=1, kee
             if rc == 0:
                 continue
             starts = [r["start"] for r in rows if "start" in r]
+            if rc == 4:
+                # planned restart: the worker reported its last run and left because that run had
+                # abandoned a goroutine that spins forever inside the code under test
+                nfrm = ch.frm + max(len(starts), 1)
+                nn = ch.frm + ch.n - nfrm
+                if nn > 0 and not (deadline and time.time() > deadline):
+                    ch.frm, ch.n = nfrm, nn
+                    launch(ch)
+                continue
             finished = set(r["seed"] for r in done)
             st = [r for r in rows if "stuck" in r]
             logtxt = open(ch.log, errors="replace").read()
